@@ -243,6 +243,9 @@ VERUS = {
     'resize': dict(props=['C08', 'C13', 'C01', 'C06', 'C03'], tier='quick',
                    desc='resize_inner on extracted text together with the functions it calls on the new table (prepare_insert_slot, find_insert_slot, set_ctrl_hash, ...), for every pair of table sizes and both widths, element storage as ghost sequences of element identities, the hasher an arbitrary function of the element, against the contracts of prepare_resize (a fresh entirely EMPTY table with the requested capacity, or an error) and of the FullBucketsIndices iterator (the indices of the FULL buckets, ascending, each once): on success the table has room for the request, no tombstone, growth_left = capacity - items, every FULL bucket carries the tag of its element and is reachable by a probe for its hash, and the multiset of elements is unchanged; on error nothing changed and the caller asked for fallible behaviour; find_insert_slot is only ever called on a table that still has an EMPTY bucket (counting argument from items <= capacity < buckets)',
                    paired={}),
+    'alloc': dict(props=['C12', 'C08', 'C02'], tier='quick',
+                  desc='the allocation path on extracted text: new_uninitialized (against the contracts of calculate_layout_for and of the allocator call: the control pointer block + ctrl_offset stays inside the block, buckets + WIDTH control bytes follow it, bucket_mask = buckets - 1 < 2^62, growth_left = capacity), fallible_with_capacity (capacity 0 gives the unallocated singleton, otherwise a table with the minimal admissible bucket count, every control byte EMPTY, nothing stored, whole capacity available) and prepare_resize (the same, which is the contract unit resize assumes); every error return happens in fallible mode only',
+                  paired={}),
     'iter': dict(props=['C09', 'C19', 'C02', 'C03'], tier='quick',
                  desc='the raw iterator core on extracted text, control pointers and buckets kept as indices into an arbitrary table (any power-of-two size, both widths): RawIterRange::new (yields exactly the FULL buckets of its range), RawIterRange::next_impl in checked and unchecked mode (returns the smallest remaining FULL bucket, consumes exactly it, None only when nothing is left, every group load aligned and in bounds, terminates), RawIter::next (items counts exactly what is left; None iff items == 0), RawIterRange::split (the two halves partition the remaining buckets, both again well-formed), RawIterRange::fold_impl (the closure is called on exactly the remaining FULL buckets, ascending, each once, accumulator threaded), FullBucketsIndices::next_impl / next (same contract over bucket indices; with lemma_min_is_next_enum this is the ascending enumeration that unit resize assumes); RawIter::drop_elements and RawTableInner::drop_elements (when the element type needs dropping and elements remain, exactly the remaining FULL buckets are dropped, ascending, each once; otherwise none); lemma L8: the leaves of any split tree yield every bucket of the root exactly once',
                  paired={}),
